@@ -367,6 +367,12 @@ func (w *World) checkSizeTrigger() {
 				spawns = append(spawns, sp{e.Thread.SpawnStep, len(e.Items)})
 			}
 		}
+		if len(spawns) == 0 && len(w.exports) > 0 {
+			// the thread that dequeues requests is not the one that spawns the
+			// exports (a different internal structure): the timeline cannot be
+			// reconstructed, so the size-trigger clause is not judged here
+			continue
+		}
 		deq := 0
 		for k, step := range cs.recvs {
 			_ = step
